@@ -10,13 +10,14 @@ git -C /repo worktree add -q --detach $EQ/repo HEAD || exit 2
 cp /repo/Cargo.lock $EQ/repo/
 git -C /verif archive --format=tar --prefix=verif/ HEAD | tar -x -C $EQ
 rsync -a /verif/equiv/ $EQ/verif/equiv/
-IDS=$(python3 -c "import json;print(' '.join(c['property_id'] for c in json.load(open('/verif/MANIFEST.json'))['checks']))")
-: > /verif/equiv/results.txt
+IDS="${EQ_IDS:-$(python3 -c "import json;print(' '.join(c['property_id'] for c in json.load(open('/verif/MANIFEST.json'))['checks']))")}"
+RES="${EQ_RESULTS:-/verif/equiv/results.txt}"
+: > $RES
 for f in $EQ/verif/equiv/*.diff; do
   n=$(basename $f .diff)
   out=$(VERIF=$EQ/verif REPO=$EQ/repo $EQ/verif/tools/sens.sh $f $IDS 2>&1)
   bad=$(echo "$out" | grep -v "exit=0" | tr '\n' ';')
-  echo "$n :: ${bad:-all 17 checks silent}" | tee -a /verif/equiv/results.txt
+  echo "$n :: ${bad:-all $(echo $IDS | wc -w) checks silent}" | tee -a $RES
 done
 git -C /repo worktree remove --force $EQ/repo
 rm -rf $EQ
